@@ -476,7 +476,7 @@ def run_kern_lab(outdir, seed, tier, log):
                             dict(base, proto="icmp", method="", port=0, port_state=0, last=max(1, n)),        # stops before the destination
                             dict(base, proto="udp", method="", port=33434, port_state=0, parallel=3),
                             dict(base, proto="icmp", method="", port=0, port_state=0, parallel=3),
-                            dict(base, proto="tcp", method="syn", port=8080, port_state=0, parallel=2)]
+                            dict(base, proto="tcp", method="syn", port=8080, port_state=0, parallel=4)]
                 fn = "kern_%d.cases" % idx
                 idx += 1
                 env = dict(GOENV, VERIF_LAB="kern", VERIF_OUT=outdir, VERIF_KERN=json.dumps(scs), VERIF_KERN_FILE=fn, VERIF_SEED=str(seed), VERIF_TIER=tier)
